@@ -626,7 +626,33 @@ class C07(Prop):
                 else:
                     buf += b"\x00\x00\x01\x00\x01"
             mazes.append(S.d("Dns", bytes(buf)))
-        return [("pointer-graphs-name", graphs), ("pointer-graphs-question", gq), ("chains-1..64", chains),
+        # names that become over-long only through a pointer: literal prefix + pointer to a literal suffix
+        over = []
+        for total in range(248, 262):
+            for split in (1, 60, 120, 200):
+                # suffix placed first (as a stand-alone name at offset 12 in a question), prefix + pointer afterwards
+                def labs(n):
+                    out = b""
+                    left = n
+                    while left > 0:
+                        k = min(63, left - 1)
+                        if k <= 0:
+                            break
+                        out += bytes([k]) + b"a" * k
+                        left -= k + 1
+                    return out
+                suf = labs(total - 1 - split) + b"\x00"
+                pre = labs(split)
+                q1 = suf + b"\x00\x01\x00\x01"
+                q2 = pre + b"\xc0\x0c" + b"\x00\x01\x00\x01"
+                over.append(S.d("Dns", msg_wire(qd=[q1, q2])))
+        over.append(S.d("DomainName", b"\xc0\x02" + b"\x01a" * 200 + b"\x00"))
+        over.append(S.d("DomainName", b"\x01b\xc0\x04" + b"\x01a" * 127 + b"\x00"))
+        run = b"\x01a" * 3000 + b"\x00"
+        fanq = [run + b"\x00\x01\x00\x01"] + [struct.pack(">H", 0xC000 | (12 + 2 * i)) + b"\x00\x01\x00\x01" for i in range(0, 300)]
+        over.append(S.d("Dns", msg_wire(qd=fanq)))
+        return [("overlong-via-pointer", over),
+                ("pointer-graphs-name", graphs), ("pointer-graphs-question", gq), ("chains-1..64", chains),
                 ("fans", fans), ("mazes", mazes), ("corpus", S.corpus_d(("Dns", "DomainName")))]
 
     def view(self, case, line):
@@ -875,3 +901,571 @@ class C14(Prop):
 
     def assumptions(self):
         return ["real thread interleavings are sampled by the harness, not enumerated; freedom from data races rests on Rust's Send/Sync rules plus the generated audit (no static/interior-mutable state)"]
+
+
+# =================================================================================== C08
+
+def value_hard_limit_violation(t):
+    """does the canon value violate a hard wire limit whatever the compression does?  (strings > 255 in
+    character-string positions, opaque RDATA / option / parameter bodies > 65535, sections > 65535)"""
+    tag, it = t
+    if tag == 'Dns':
+        for sec in it[2:6]:
+            n = 0
+            for x in sec[1]:
+                n += x[1][0] if (not isinstance(x, int) and x[0] == 'REP') else 1
+            if n > 65535:
+                return "section with %d entries" % n
+        for sec in it[3:6]:
+            for r in sec[1]:
+                rr = r[1][1] if r[0] == 'REP' else r
+                v = value_hard_limit_violation(rr)
+                if v:
+                    return v
+        return None
+    if tag == 'RR':
+        ty = it[0]
+        rd = it[4]
+        if rd[0] == 'G':
+            kinds = R.FMT.get(ty, [])
+            kinds = [k for k in kinds if k != 'proto3']
+            total = 0
+            for k, v in zip(kinds, rd[1]):
+                if k in ('str', 'digits', 'gpos', 'tag') and len(v[1]) // 2 > 255:
+                    return "character-string of %d octets" % (len(v[1]) // 2)
+                if k == 'opthex' and v[1] and len(v[1][0][1]) // 2 > 255:
+                    return "character-string of %d octets" % (len(v[1][0][1]) // 2)
+                if k == 'strs1':
+                    for sx in v[1]:
+                        if len(sx[1]) // 2 > 255:
+                            return "character-string of %d octets" % (len(sx[1]) // 2)
+                        total += 1 + len(sx[1]) // 2
+                if k in ('rest', 'utf8rest') or k in ('str', 'digits', 'gpos', 'tag'):
+                    total += len(v[1]) // 2
+            if total > 65535:
+                return "RDATA of more than 65535 octets"
+        if rd[0] == 'OPT':
+            for o in rd[1][4][1]:
+                if o[0] == 'PAD' and o[1][0] > 65535:
+                    return "padding of %d octets" % o[1][0]
+            if sum((o[1][0] + 4) if o[0] == 'PAD' else 4 for o in rd[1][4][1]) > 65535:
+                return "OPT RDATA of more than 65535 octets"
+        if rd[0] == 'SVCB' and rd[1][0] != 0:
+            tot = 0
+            for p_ in rd[1][2][1]:
+                if p_[0] in ('PRIV', 'ECH'):
+                    n = len(p_[1][-1][1]) // 2
+                    if n > 65535 - (2 if p_[0] == 'ECH' else 0):
+                        return "SvcParam value of %d octets" % n
+                    tot += n + 4
+                if p_[0] == 'ALPN':
+                    for i in p_[1]:
+                        if len(i[1]) // 2 > 255:
+                            return "alpn id of %d octets" % (len(i[1]) // 2)
+            if tot > 65535:
+                return "SVCB RDATA of more than 65535 octets"
+    return None
+
+
+def subst_node(t, tag, new):
+    if isinstance(t, int) or t[0] == 'x':
+        return t
+    if t[0] == tag:
+        return new(t)
+    return (t[0], [subst_node(i, tag, new) for i in t[1]])
+
+
+def find_nodes(t, tag, acc):
+    if isinstance(t, int) or t[0] == 'x':
+        return acc
+    if t[0] == tag:
+        acc.append(t)
+    for i in t[1]:
+        find_nodes(i, tag, acc)
+    return acc
+
+
+class C08(Prop):
+    pid = "C08"
+
+    def streams(self, tier, rng):
+        n = 400 if tier == "quick" else 4000
+        F = ('F', 0, 0, 0, 0, 0, 0, 0, 0, 0)
+        ex = ('N', [b"example", b"org"])
+
+        def msg(*rrs, qd=()):
+            return ('Dns', 1, F, list(qd), list(rrs), [], [])
+        strings = []
+        for ln in list(range(250, 262)) + [0, 1, 300]:
+            s_ = b"a" * ln
+            strings.append("E Dns " + G.canon(msg(('RR', 13, ex, 1, 0, ('G', [s_, b"x"])))))
+            strings.append("E Dns " + G.canon(msg(('RR', 16, ex, 1, 0, ('G', [('L', [b"ok", s_])])))))
+            strings.append("E Dns " + G.canon(msg(('RR', 19, ex, 1, 0, ('G', [b"1" * ln])))))
+            strings.append("E Dns " + G.canon(msg(('RR', 257, ex, 1, 0, ('G', [0, b"t" * max(ln, 1), b"v"])))))
+            strings.append("E Dns " + G.canon(msg(('RR', 20, ex, 1, 0, ('G', [b"12", ('O', b"a" * ln)])))))
+            strings.append("E Dns " + G.canon(msg(('RR', 64, ex, 1, 0, ('SVCB', 1, ('N', []), [('ALPN', b"h2", s_)])))))
+            strings.append("E RR " + G.canon(('RR', 13, ex, 1, 0, ('G', [s_, s_]))))
+        big = []
+        for ln in (65520, 65534, 65535, 65536, 65537, 70000):
+            big.append("E RR " + G.canon(('RR', 10, ('N', []), 1, 0, ('G', [bytes(ln)]))))
+            big.append("E RR " + G.canon(('RR', 41, ('N', []), 0, 0, ('OPT', 512, 0, 0, False, [('PAD', ln - 4 if ln > 4 else 0)]))))
+            big.append("E RR " + G.canon(('RR', 64, ('N', []), 1, 0, ('SVCB', 1, ('N', []), [('PRIV', 7, bytes(ln - 7))]))))
+            big.append("E RR " + G.canon(('RR', 64, ('N', []), 1, 0, ('SVCB', 1, ('N', []), [('ECH', bytes(ln - 9))]))))
+        for total in (16000, 16400, 65000, 65500, 65535, 65536, 65600, 131000):
+            k = total // 16000 + 1
+            per = (total - 12) // k - 11
+            rrs = [('RR', 10, ('N', []), 1, 0, ('G', [bytes(per)]))] * k
+            big.append("E Dns " + G.canon(msg(*rrs)))
+        txt = ('RR', 16, ('N', []), 1, 0, ('G', [('L', [b"a" * 255] * 255)]))
+        big.append("E Dns " + G.canon(msg(txt, txt)))
+        sections = []
+        q = "(Q (N) 1 1)"
+        r_ = "(RR 1 (N) 1 0 (G 0))"
+        for cnt in (65536, 65537, 70000):
+            sections.append("E Dns (Dns 1 (F 0 0 0 0 0 0 0 0 0) (L (REP %d %s)) (L) (L) (L))" % (cnt, q))
+            sections.append("E Dns (Dns 1 (F 0 0 0 0 0 0 0 0 0) (L) (L (REP %d %s)) (L) (L))" % (cnt, r_))
+            sections.append("E Dns (Dns 1 (F 0 0 0 0 0 0 0 0 0) (L) (L) (L) (L (REP %d %s)))" % (cnt, r_))
+        sections.append("E Dns (Dns 1 (F 0 0 0 0 0 0 0 0 0) (L (REP 3000 %s)) (L (REP 3000 %s)) (L) (L))" % (q, r_))
+        if tier == "thorough":
+            sections.append("E Dns (Dns 1 (F 0 0 0 0 0 0 0 0 0) (L (REP 13000 %s)) (L) (L) (L))" % q)
+        known = []
+        for rc in (16, 17, 23):
+            known.append("E Dns " + G.canon(('Dns', 1, ('F', 1, 0, 0, 0, 0, 0, 0, 0, rc), [], [], [], [])))
+            known.append("E Flags " + G.canon(('F', 1, 0, 0, 0, 0, 0, 0, 0, rc)))
+        known.append("E Dns " + G.canon(msg(('RR', 27, ex, 1, 0, ('G', [b"", b"1", b"2"])))))
+        known.append("E Dns " + G.canon(msg(('RR', 27, ex, 1, 0, ('G', [b"1", b"1", b""])))))
+        for num, data in ((3, b"\x01"), (0, b"\x00"), (2, b"x"), (65535, b"y"), (5, b"\x00\x09z"), (4, b"\x01\x02\x03")):
+            known.append("E Dns " + G.canon(msg(('RR', 64, ex, 1, 0, ('SVCB', 1, ('N', []), [('PRIV', num, data)])))))
+        known.append("E Dns " + G.canon(msg(('RR', 64, ex, 1, 0, ('SVCB', 0, ('N', [b"t"]), [('PORT', 80)])))))
+        known.append("E Dns " + G.canon(msg(('RR', 65, ex, 1, 0, ('SVCB', 0, ('N', []), [('NODEF',), ('PORT', 1)])))))
+        return [("string-lengths", strings), ("big-rdata-and-messages", big), ("oversized-sections", sections),
+                ("known-classes", known), ("valid-values", S.value_e(rng, n)), ("valid-rr", S.value_e_rr(rng, n))]
+
+    def nontrivial(self, case, line):
+        return True
+
+    def oracle(self, case, line):
+        if line.startswith("PANIC"):
+            return "implementation panicked: " + line[:200]
+        w = case.split(" ", 2)
+        t = R.parse_canon(w[2])
+        hard = value_hard_limit_violation(t)
+        if line.startswith("OK "):
+            if hard:
+                return "unrepresentable value (%s) encoded without an error (%d octets)" % (hard, (len(line) - 3) // 2)
+            if (len(line) - 3) // 2 > 65535:
+                return "encoder emitted %d octets (> 65535)" % ((len(line) - 3) // 2)
+            return encode_oracle(case, line, expect_ok=False)
+        if line.startswith("ERR") and hard is None and w[1] == "Dns" and R.uncompressed_size(R.parse_canon(expand_rep(w[2]))) <= 65535 \
+                and "REP" not in w[2]:
+            return "representable value failed to encode: " + line[:200]
+        return None
+
+    def known(self, case, line, failure):
+        w = case.split(" ", 2)
+        t = R.parse_canon(w[2])
+        if not line.startswith("OK "):
+            return None
+        b = bytes.fromhex(line[3:]) if line[3:] != "-" else b""
+        entry = {"Dns": "Dns", "RR": "RR", "Flags": "Flags"}.get(w[1])
+        if entry is None:
+            return None
+        r = R.ref_decode(entry, b)
+        fl = find_nodes(t, 'F', [])
+        if fl and fl[0][1][8] >= 16 and r[0] == "OK":
+            # KF4: only the flag word differs: rcode OR-ed into the octet
+            rc = fl[0][1][8]
+            exp = subst_node(R.fold_names(t), 'F', lambda f: ('F', f[1][:7] + [f[1][7] | ((rc >> 4) & 1), rc & 15]))
+            if R.unparse(exp) == R.canon_fold(r[1]):
+                return "KF4"
+        if r[0] == "REJECT" and "GPOS empty string" in r[1]:
+            for rr in find_nodes(t, 'RR', []):
+                if rr[1][0] == 27 and any(f[1] == "" for f in rr[1][4][1]):
+                    return "KF5"
+        privs = [p_ for p_ in find_nodes(t, 'PRIV', []) if p_[1][0] in (0, 1, 2, 3, 4, 5, 6, 65535)]
+        if privs:
+            return "KF6"
+        for sv in find_nodes(t, 'SVCB', []):
+            if sv[1][0] == 0 and sv[1][2][1] and r[0] == "OK":
+                exp = subst_node(R.fold_names(t), 'SVCB', lambda x: ('SVCB', [x[1][0], x[1][1], ('L', [])]) if x[1][0] == 0 else x)
+                if R.unparse(exp) == R.canon_fold(r[1]):
+                    return "KF7"
+        return None
+
+    def rule(self):
+        return ("E cases beyond the wire limits: character strings of 0,1,250..261,300 octets in every string position (HINFO, TXT, "
+                "X25, CAA tag, ISDN sa, alpn id), opaque RDATA / padding / SvcParam / ECH bodies of 65,520..70,000 octets, messages "
+                "of 16 KiB..131 KB made of NULL records, two maximal TXT records, sections of 65,536 / 65,537 / 70,000 entries, "
+                "the four known-finding classes, random valid values; on Ok the output is re-read by the reference decoder; every "
+                "case non-trivial; distinct by text")
+
+    def assumptions(self):
+        return ["sections of exactly 65,535 entries are exercised only in the thorough tier with 13,000 entries (the list-append model makes 65,535 take minutes); the count check itself is proved (C08_counts_exact)"]
+
+
+# =================================================================================== C15
+
+def opt_rr(cls, ttl, rdata, owner=b"\x00"):
+    return rr_wire(41, cls, ttl, rdata, owner)
+
+
+class C15(Prop):
+    pid = "C15"
+
+    def streams(self, tier, rng):
+        d = []
+        for k in range(4):
+            for v in range(256):
+                d.append(S.d("RR", opt_rr(1232, v << (8 * k), b"")))
+        for cls in (0, 1, 511, 512, 1232, 4096, 65535):
+            d.append(S.d("RR", opt_rr(cls, 0, b"")))
+        d.append(S.d("RR", opt_rr(512, 0, b"", owner=b"\x01a\x00")))
+        opt = lambda code, body, ln=None: struct.pack(">HH", code, len(body) if ln is None else ln) + body
+        for n in range(0, 65):
+            d.append(S.d("RR", opt_rr(512, 0, opt(10, bytes(range(n))))))
+            d.append(S.d("RR", opt_rr(512, 0, opt(12, bytes(n)))))
+            d.append(S.d("RR", opt_rr(512, 0, opt(12, bytes(n)[:-1] + b"\x01" if n else b""))))
+        d.append(S.d("RR", opt_rr(512, 0, opt(12, bytes(65531)))))
+        d.append(S.d("RR", opt_rr(512, 0, opt(12, bytes(65530) + b"\x07"))))
+        for fam, size in ((1, 4), (2, 16), (0, 4), (3, 4)):
+            for k in range(0, size + 2):
+                for src, scope in ((0, 0), (8 * k, 0), (0, 8 * k), (8 * k + 1, 0), (8 * size, 0), (8 * size + 1, 0), (7, 9)):
+                    if src < 256 and scope < 256:
+                        for fill in (0x00, 0xFF, 0x80):
+                            d.append(S.d("RR", opt_rr(512, 0, opt(8, struct.pack(">HBB", fam, src, scope) + bytes([fill] * k)))))
+        bodies = [opt(10, bytes(8)), opt(12, b""), opt(8, struct.pack(">HBB", 1, 0, 0)), opt(12, bytes(3)), opt(10, bytes(24))]
+        for k in (1, 2, 3, 4):
+            for combo in itertools.product(range(len(bodies) if k < 4 else 3), repeat=k):
+                d.append(S.d("RR", opt_rr(512, 0, b"".join(bodies[i] for i in combo))))
+        for delta in (-2, -1, 1, 2, 255, 256):
+            for b_ in bodies:
+                code, ln = struct.unpack(">HH", b_[:4])
+                d.append(S.d("RR", opt_rr(512, 0, struct.pack(">HH", code, (ln + delta) & 0xFFFF) + b_[4:])))
+        for code in (0, 1, 7, 9, 11, 13, 65535):
+            d.append(S.d("RR", opt_rr(512, 0, opt(code, b""))))
+        e = []
+        for _ in range(400 if tier == "quick" else 4000):
+            opts = [G.rnd_option(rng) for _ in range(rng.choice([0, 1, 2, 4]))]
+            e.append("E RR " + G.canon(('RR', 41, ('N', []), 0, 0, ('OPT', G.rnd_u(rng, 16), G.rnd_u(rng, 8), G.rnd_u(rng, 8), rng.random() < 0.5, opts))))
+        for n in (None, 8, 9, 31, 32):
+            sv = None if n is None else bytes(range(n))
+            e.append("E RR " + G.canon(('RR', 41, ('N', []), 0, 0, ('OPT', 512, 0, 0, False, [('COOKIE', bytes(8), ('O', sv))]))))
+        for n in (0, 1, 64, 65531):
+            e.append("E RR " + G.canon(('RR', 41, ('N', []), 0, 0, ('OPT', 512, 0, 0, True, [('PAD', n)]))))
+        return [("decode-opt", d), ("encode-opt", e)]
+
+    def view(self, case, line):
+        if case.startswith("D "):
+            dd = parse_d(line)
+            if dd["status"] != "OK":
+                return dd["status"]
+            return "OK %s reenc=%s" % (dd["canon"], dd["reenc"])
+        return line
+
+    def oracle(self, case, line):
+        if line.startswith("PANIC"):
+            return "implementation panicked: " + line[:200]
+        if case.startswith("D "):
+            dd = parse_d(line)
+            e, w = case_wire(case)
+            r = R.ref_decode(e, w)
+            if dd["status"] == "OK":
+                if r[0] != "OK":
+                    return "OPT record accepted outside the RFC value domain (%s)" % r[1]
+                if r[1] != dd["canon"]:
+                    return "OPT fields differ from the RFC 6891 layout: library %s reference %s" % (dd["canon"][:300], r[1][:300])
+                if dd["reenc"].startswith("ERR") or dd["d2"] != "same":
+                    return "accepted OPT record is not emitted so that it decodes to the same record: reenc=%s d2=%s" % (dd["reenc"][:100], dd["d2"][:200])
+            elif dd["status"] == "ERR" and r[0] == "OK":
+                return "OPT record inside the RFC value domain rejected: %s (reference: %s)" % (dd["err"], r[1][:300])
+            return None
+        return encode_oracle(case, line, expect_ok=True)
+
+    def rule(self):
+        return ("D RR / E RR cases on OPT records: TTL words by independent octets (4 x 256, complete), payload sizes at boundaries, "
+                "non-root owner, cookie lengths 0..=64, padding lengths 0..=64 with and without a non-zero octet and 65,531, ECS for "
+                "families 0..3 x address octet counts 0..size+1 x prefix pairs x fill octets, all sequences of <= 3 of five option "
+                "bodies and <= 4 of three, option-length deltas, unsupported option codes; encode of random option lists and "
+                "boundary cookies/paddings; verdict and value compared with the reference decoder in BOTH directions; every case "
+                "non-trivial; distinct by text")
+
+
+# =================================================================================== C16
+
+def svcb_rr(t, prio, target, params_wire, cls=1):
+    return rr_wire(t, cls, 300, struct.pack(">H", prio) + target + params_wire)
+
+
+class C16(Prop):
+    pid = "C16"
+
+    def streams(self, tier, rng):
+        par = lambda k, v, ln=None: struct.pack(">HH", k, len(v) if ln is None else ln) + v
+        vals = {0: b"\x00\x01\x00\x04", 1: b"\x02h2\x02h3", 2: b"", 3: b"\x01\xbb", 4: bytes([192, 0, 2, 1]), 5: b"\x00\x03abc",
+                6: bytes(16), 7: b"opaque", 65534: b"", 65535: b""}
+        d = []
+        keys = list(vals)
+        pool = [0, 1, 3, 4, 7, 65535]
+        for k in (1, 2, 3):
+            for combo in itertools.product(pool, repeat=k):
+                for t in (64, 65):
+                    d.append(S.d("RR", svcb_rr(t, 1, b"\x00", b"".join(par(x, vals[x]) for x in combo))))
+        for combo in itertools.product([1, 3, 7], repeat=4):
+            d.append(S.d("RR", svcb_rr(64, 1, b"\x00", b"".join(par(x, vals[x]) for x in combo))))
+        for x in keys:
+            v = vals[x]
+            for delta in (-2, -1, 1, 2, 3, 4, 15, 16, 17):
+                n = len(v) + delta
+                if n >= 0:
+                    body = (v + bytes(40))[:n]
+                    d.append(S.d("RR", svcb_rr(64, 1, b"\x00", par(x, body))))
+                d.append(S.d("RR", svcb_rr(64, 1, b"\x00", par(x, v, (len(v) + delta) & 0xFFFF))))
+        d.append(S.d("RR", svcb_rr(64, 1, b"\x00", par(5, b"\x00\x04abc"))))
+        d.append(S.d("RR", svcb_rr(64, 1, b"\x00", par(1, b"\x05h2"))))
+        d.append(S.d("RR", svcb_rr(64, 1, b"\x00", par(0, b"\x00\x04\x00\x01"))))
+        for prio in (0, 1, 65535):
+            for t in (64, 65):
+                d.append(S.d("RR", svcb_rr(t, prio, b"\x03foo\x00", b"")))
+                d.append(S.d("RR", svcb_rr(t, prio, b"\x03foo\x00", par(3, b"\x00\x50"))))
+        for cls in (0, 2, 3, 4, 255):
+            d.append(S.d("RR", svcb_rr(64, 1, b"\x00", b"", cls=cls)))
+        e = []
+        for _ in range(600 if tier == "quick" else 6000):
+            names = []
+            e.append("E RR " + G.canon(G.rnd_rr(rng, names, rng.choice(["SVCB", "HTTPS"]))))
+        for keys_ in ([4, 1], [6, 5, 4, 3, 1], [1, 1], [65535, 0], []):
+            e.append("E RR " + G.canon(('RR', 64, ('N', [b"a"]), 1, 1, ('SVCB', 1, ('N', []), [('MAND', *keys_), ('PORT', 1)]))))
+        for n in (0, 1, 255, 300):
+            e.append("E RR " + G.canon(('RR', 65, ('N', [b"a"]), 1, 1, ('SVCB', 2, ('N', [b"t"]), [('ECH', bytes(n)), ('PRIV', 7, bytes(n)), ('PRIV', 65534, b"")]))))
+        e.append("E RR " + G.canon(('RR', 64, ('N', [b"a"]), 1, 1, ('SVCB', 0, ('N', [b"alias"]), []))))
+        return [("decode-svcb", d), ("encode-svcb", e)]
+
+    def view(self, case, line):
+        if case.startswith("D "):
+            dd = parse_d(line)
+            if dd["status"] != "OK":
+                return dd["status"]
+            return "OK %s reenc=%s" % (dd["canon"], dd["reenc"])
+        return line
+
+    def check_emitted(self, b):
+        r = R.ref_decode("RR", b)
+        if r[0] != "OK":
+            return "emitted record is not well-formed: " + r[1]
+        ks = r[2].param_keys
+        if any(x >= y for x, y in zip(ks, ks[1:])):
+            return "emitted SvcParam keys are not strictly increasing: %s" % ks
+        for mn in find_nodes(R.parse_canon(r[1]), 'MAND', []):
+            if mn[1] != sorted(mn[1]):
+                return "emitted mandatory key list is not sorted: %s" % mn[1]
+        return None
+
+    def oracle(self, case, line):
+        if line.startswith("PANIC"):
+            return "implementation panicked: " + line[:200]
+        if case.startswith("D "):
+            dd = parse_d(line)
+            e, w = case_wire(case)
+            r = R.ref_decode(e, w)
+            if dd["status"] == "OK":
+                if r[0] != "OK":
+                    return "SVCB/HTTPS record accepted although malformed (%s)" % r[1]
+                if r[1] != dd["canon"]:
+                    return "parameter values differ from the wire: library %s reference %s" % (dd["canon"][:300], r[1][:300])
+                if not dd["reenc"].startswith("ERR"):
+                    return self.check_emitted(bytes.fromhex(dd["reenc"]))
+            elif dd["status"] == "ERR" and r[0] == "OK":
+                return "well-formed SVCB/HTTPS record rejected: %s" % dd["err"]
+            return None
+        o = encode_oracle(case, line, expect_ok=True)
+        if o is None and line.startswith("OK "):
+            return self.check_emitted(bytes.fromhex(line[3:]))
+        return o
+
+    def rule(self):
+        return ("D RR / E RR cases on SVCB and HTTPS: every wire sequence of <= 3 parameters over six kinds (incl. duplicates and "
+                "unsorted orders) for both types, all 4-sequences over three kinds, for each of the ten keys the value length "
+                "changed by -2..+17 both in the body and in the length field, ECH/alpn inner-length mismatches, priorities 0/1/65535 "
+                "with and without parameters, every class value; encode of random parameter sets, unsorted / duplicated mandatory "
+                "lists, ECH and opaque values of 0..300 octets, alias form; verdict and values compared with the reference decoder "
+                "in both directions, emitted key order and mandatory order checked on the wire; every case non-trivial")
+
+
+# =================================================================================== C17
+
+class C17(Prop):
+    pid = "C17"
+
+    def patterns(self, size, full):
+        pats = [bytes(size), bytes([255] * size)]
+        bits = range(8 * size) if full else list(range(0, 8 * size, 5)) + [7, 8, 8 * size - 1]
+        for b in bits:
+            pats.append((1 << (8 * size - 1 - b)).to_bytes(size, "big"))
+        for p in (range(8 * size + 1) if full else list(range(0, 8 * size + 1, 7)) + [8, 24, 8 * size]):
+            pats.append((((1 << p) - 1) << (8 * size - p)).to_bytes(size, "big"))
+        return pats
+
+    def streams(self, tier, rng):
+        full = tier == "thorough"
+        d, e = [], []
+        for fam, size in ((1, 4), (2, 16)):
+            pats = self.patterns(size, full or fam == 1)
+            prefixes = range(256) if (full or fam == 1) else list(range(0, 135)) + [200, 255]
+            for a in pats:
+                for p in prefixes:
+                    ks = range(0, size + 2) if (full or p % 8 == 0 or p < 34) else (0, size)
+                    for k in ks:
+                        body = (a + b"\x00")[:k]
+                        neg = (p + k) & 1
+                        d.append(S.d("RR", rr_wire(42, 1, 0, struct.pack(">HBB", fam, p, k | (0x80 if neg else 0)) + body)))
+                    if p <= 8 * size and int.from_bytes(a, "big") & ((1 << (8 * size - p)) - 1) == 0:
+                        e.append("E RR " + G.canon(('RR', 42, ('N', []), 1, 0, ('APL', [('I', fam, p, bool(p & 1), a)]))))
+                for src, scope in ((0, 0), (8, 0), (24, 0), (24, 25), (25, 24), (0, 24), (8 * size, 0), (8 * size - 1, 8 * size), (7, 9), (16, 17)):
+                    if max(src, scope) <= 8 * size and int.from_bytes(a, "big") & ((1 << (8 * size - max(src, scope))) - 1) == 0:
+                        e.append("E RR " + G.canon(('RR', 41, ('N', []), 0, 0, ('OPT', 512, 0, 0, False, [('ECS', fam, src, scope, a)]))))
+                    for k in (0, size // 2, size, size + 1):
+                        d.append(S.d("RR", opt_rr(512, 0, struct.pack(">HHHBB", 8, 4 + k, fam, src, scope) + (a + b"\x00")[:k])))
+        return [("decode-grid", d), ("encode-grid", e)]
+
+    def view(self, case, line):
+        if case.startswith("D "):
+            dd = parse_d(line)
+            if dd["status"] != "OK":
+                return dd["status"]
+            return "OK %s reenc=%s" % (dd["canon"], dd["reenc"])
+        return line
+
+    def oracle(self, case, line):
+        if line.startswith("PANIC"):
+            return "implementation panicked: " + line[:200]
+        if case.startswith("D "):
+            dd = parse_d(line)
+            e, w = case_wire(case)
+            r = R.ref_decode(e, w)
+            if dd["status"] == "OK":
+                if r[0] != "OK":
+                    return "address-prefix item accepted although the RFC form forbids it (%s)" % r[1]
+                if r[1] != dd["canon"]:
+                    return "family/prefix/negation/address differ from the wire: library %s reference %s" % (dd["canon"][:200], r[1][:200])
+            elif dd["status"] == "ERR" and r[0] == "OK":
+                return "RFC-conformant address-prefix form rejected: %s" % dd["err"]
+            return None
+        o = encode_oracle(case, line, expect_ok=True)
+        if o is not None:
+            return o
+        r = R.ref_decode("RR", bytes.fromhex(line[3:]))
+        for kind, fam, p, cnt, raw in r[2].addr_counts:
+            if kind == "ECS":
+                want = (p[0] + 7) // 8
+                if cnt != want:
+                    return "ECS address emitted with %d octets, RFC 7871 mandates ceil(%d/8) = %d" % (cnt, p[0], want)
+            else:
+                if cnt and raw[cnt - 1] == 0:
+                    return "APL address emitted with trailing zero octets (%d octets: %s)" % (cnt, raw.hex())
+        return None
+
+    def known(self, case, line, failure):
+        if not (case.startswith("E ") and line.startswith("OK ")):
+            return None
+        r = R.ref_decode("RR", bytes.fromhex(line[3:]))
+        if r[0] != "OK":
+            return None
+        for kind, fam, p, cnt, raw in r[2].addr_counts:
+            size = 4 if fam == 1 else 16
+            if kind == "ECS" and "RFC 7871" in failure and cnt == min(max(p) // 8 + 1, size):
+                return "KF2"
+            if kind == "APL" and "trailing zero" in failure and cnt == min(p // 8 + 1, size):
+                return "KF3"
+        return None
+
+    def rule(self):
+        return ("the grid of the property: both families x prefixes 0..=255 (IPv6 quick: 0..134, 200, 255) x {zero, all-ones, "
+                "single-bit, prefix-mask addresses} x address octet counts 0..=size+1 x negation for APL items (D RR), ECS with ten "
+                "(source, scope) pairs x octet counts, and E RR for every consistent (address, prefix) of the grid; complete for "
+                "IPv4 in the quick tier and for both families in the thorough tier; verdict/value vs the reference decoder in both "
+                "directions; emitted octet count vs the RFC count; every case non-trivial")
+
+    def exhaustive(self, tier):
+        return tier == "thorough"
+
+
+# =================================================================================== C18
+
+POST1035 = {17: "RP", 18: "AFSDB", 21: "RT", 26: "PX", 33: "SRV", 36: "KX", 39: "DNAME", 107: "LP", 64: "SVCB", 65: "SVCB"}
+
+
+class C18(Prop):
+    pid = "C18"
+
+    def streams(self, tier, rng):
+        base = [b"example", b"org"]
+        out = []
+        fmt = {17: lambda n: [('N', n), ('N', [b"t"] + n)], 18: lambda n: [1, ('N', n)], 21: lambda n: [10, ('N', n)],
+               26: lambda n: [10, ('N', n), ('N', [b"x"] + n)], 33: lambda n: [1, 2, 3, ('N', n)], 36: lambda n: [10, ('N', n)],
+               39: lambda n: [('N', n)], 107: lambda n: [10, ('N', n)],
+               2: lambda n: [('N', n)], 5: lambda n: [('N', n)], 15: lambda n: [10, ('N', n)], 6: lambda n: [('N', n), ('N', [b"h"] + n), 1, 2, 3, 4, 5],
+               12: lambda n: [('N', n)], 14: lambda n: [('N', n), ('N', n)], 3: lambda n: [('N', n)], 4: lambda n: [('N', n)],
+               7: lambda n: [('N', n)], 8: lambda n: [('N', n)], 9: lambda n: [('N', n)]}
+
+        def rr(t, owner, n):
+            if t in (64, 65):
+                return ('RR', t, ('N', owner), 1, 60, ('SVCB', 1, ('N', n), [('PORT', 443)]))
+            return ('RR', t, ('N', owner), 1, 60, ('G', fmt[t](n)))
+        F = ('F', 1, 0, 0, 0, 0, 0, 0, 0, 0)
+        for t in sorted(set(POST1035) | set(fmt)):
+            for overlap in (1, 2, 3):
+                suffix = ([b"deep"] + base)[-overlap:] if overlap < 3 else [b"deep"] + base
+                target = [b"host"] + suffix
+                # earlier name: question / owner of the same record / owner of an earlier record / RDATA of an earlier NS record
+                out.append(("E Dns " + G.canon(('Dns', 1, F, [('Q', ('N', [b"deep"] + base), 1, 1)], [rr(t, [b"other"], target)], [], [])), t))
+                out.append(("E Dns " + G.canon(('Dns', 1, F, [], [rr(t, [b"deep"] + base, target)], [], [])), t))
+                out.append(("E Dns " + G.canon(('Dns', 1, F, [], [('RR', 1, ('N', [b"deep"] + base), 1, 1, ('G', [1])), rr(t, [b"zz"], target)], [], [])), t))
+                out.append(("E Dns " + G.canon(('Dns', 1, F, [], [('RR', 2, ('N', [b"q"]), 1, 1, ('G', [('N', [b"deep"] + base)])), rr(t, [b"zz"], target)], [], [])), t))
+                out.append(("E Dns " + G.canon(('Dns', 1, F, [], [rr(t, [b"aa"], target), rr(t, [b"bb"], target)], [], [])), t))
+        self.types = {c: t for c, t in out}
+        return [("rdata-names-after-earlier-names", [c for c, _ in out])]
+
+    def rdata_pointer(self, line):
+        """first (type, position) of a compression pointer inside an RDATA name of a post-RFC-1035 type"""
+        r = R.ref_decode("Dns", bytes.fromhex(line[3:]))
+        if r[0] != "OK":
+            return ("malformed", r[1])
+        for nm in r[2].names:
+            if nm["where"].startswith("rdata:"):
+                t = int(nm["where"][6:])
+                if t in POST1035 and any(nm["start"] <= pos < nm["end"] for pos, _ in nm["ptrs"]):
+                    return (t, nm["start"])
+        return None
+
+    def oracle(self, case, line):
+        if line.startswith("PANIC"):
+            return "implementation panicked: " + line[:200]
+        if not line.startswith("OK "):
+            return "legal message failed to encode: " + line[:200]
+        o = encode_oracle(case, line, expect_ok=True)
+        if o:
+            return o
+        rp = self.rdata_pointer(line)
+        if rp is None:
+            return None
+        if rp[0] == "malformed":
+            return "output not well-formed: " + rp[1]
+        return "RDATA name of type %d (%s) at offset %d is emitted with a compression pointer" % (rp[0], POST1035[rp[0]], rp[1])
+
+    def known(self, case, line, failure):
+        if "is emitted with a compression pointer" not in failure or not line.startswith("OK "):
+            return None
+        rp = self.rdata_pointer(line)
+        if rp and rp[0] in POST1035:
+            return "KF1-" + POST1035[rp[0]]
+        return None
+
+    def nontrivial(self, case, line):
+        return True
+
+    def rule(self):
+        return ("E Dns cases: for each of the nine post-RFC-1035 types with an RDATA name (RP, AFSDB, RT, PX, SRV, KX, DNAME, LP, "
+                "SVCB/HTTPS) and the RFC 1035 types that may compress, a record whose RDATA name shares a suffix of 1..3 labels with "
+                "an earlier name in each earlier-name position (question, own owner, owner of an earlier record, RDATA of an earlier "
+                "record, RDATA of an earlier record of the same type); pointer positions from the reference decoder's trace on the "
+                "implementation's bytes; byte-exact vs the model; every case non-trivial")
